@@ -13,7 +13,7 @@
    layout, IsRRset), crypto/rsa's public-key checks, math/big.  Hash
    functions, ECDSA and Ed25519 verification are oracles: Section variables
    here, look-up tables filled in by the driver in Run.v. *)
-From Sdns Require Import Common.Base Gen.C14.
+From Sdns Require Import Common.Base Common.GoList Gen.C14.
 Open Scope N_scope.
 
 (* ------------------------------------------------------------------ bytes *)
@@ -875,7 +875,7 @@ Fixpoint run_eq (l : list (list N * list N)) : N :=
   | [] => 0
   | p :: r => if equal_fold (fst p) (snd p) then 1 + run_eq r else 0
   end.
-Definition compare_suffix (a b : list N) : N :=
+Definition compare_suffix_spec (a b : list N) : N :=
   if list_eqb a [DOT] || list_eqb b [DOT] then 0 else
   let sa := segs a in
   let sb := segs b in
@@ -884,13 +884,32 @@ Definition compare_suffix (a b : list N) : N :=
   run_eq (rev (combine sa' sb')).
 
 (* isSynthesizedCNAME; a DNAME is (owner, target) *)
-Definition is_synthesized_cname (owner target : list N) (dnames : list (list N * list N)) : bool :=
+Definition is_synthesized_cname_spec (owner target : list N) (dnames : list (list N * list N)) : bool :=
   existsb (fun d =>
     let dl := count_label (fst d) in
     if (dl =? 0) || (count_label owner <=? dl) then false else
-    let n := compare_suffix (fst d) owner in
+    let n := compare_suffix_spec (fst d) owner in
     if negb (n =? dl) then false else
     equal_fold (fqdn (firstn (N.to_nat (prev_label owner n)) owner ++ snd d)) (fqdn target)) dnames.
+
+(* The model proper of these two is the Go code itself as the translator reads it (Gen/C14.v:
+   go_CompareSuffix with dns.CountLabel / dns.NextLabel from the module cache, go_isSynthesizedCNAME with
+   dns.PrevLabel, dns.Fqdn and strings.EqualFold in their ASCII readings), run with a budget no loop of
+   theirs can exhaust on these arguments (every loop walks one of the strings or the DNAME list).  The two
+   definitions above are kept as the readable specification; CaseSuffix / CaseSynth require code, translation
+   and specification to agree on every generated input. *)
+Definition name_fuel (a b : list N) : nat := S (S (length a + length b)).
+Definition compare_suffix (a b : list N) : N :=
+  match go_CompareSuffix (name_fuel a b) a b with Some z => Z.to_N z | None => 0 end.
+Definition cname_rec (owner target : list N) : T_CNAME := mk_T_CNAME (mk_T_RR_Header owner 5 1 0 0) target.
+Definition dname_rec (d : list N * list N) : T_DNAME := mk_T_DNAME (mk_T_RR_Header (fst d) 39 1 0 0) (snd d).
+Definition synth_fuel (owner target : list N) (dnames : list (list N * list N)) : nat :=
+  S (S (length owner + length target + fold_right (fun d acc => (length (fst d) + length (snd d) + acc)%nat) O dnames)).
+Definition is_synthesized_cname (owner target : list N) (dnames : list (list N * list N)) : bool :=
+  match go_isSynthesizedCNAME (synth_fuel owner target dnames) (cname_rec owner target) (map dname_rec dnames) with
+  | Some b => b
+  | None => false
+  end.
 
 (* a message section: records and RRSIGs in order; [valid] is sig.ValidityPeriod(now) *)
 Inductive mitem := MR (r : rr) | MS (s : rrsig) (valid : bool).
